@@ -26,7 +26,8 @@ ValOK(e) == \E m \in Lo(e.c0)..Hi(e.c1) :
 GetOK(e) == \E m \in Lo(e.c0)..Hi(e.c1) :
               m + 1 <= Len(KV) /\ {e.ks[j] : j \in 1..Len(e.ks)} = {u \in KV[m + 1] : K[u].a = K[e.k].a /\ K[u].k = K[e.k].k}
                                /\ e.n = Len(e.ks)
-EnumOK(e) == \E m \in Lo(e.c0)..Hi(e.c1) : m + 1 <= Len(PV) /\ {e.idx[j] : j \in 1..Len(e.idx)} = PV[m + 1]
+(* an enumeration is one for_each call of one address family *)
+EnumOK(e) == \E m \in Lo(e.c0)..Hi(e.c1) : m + 1 <= Len(PV) /\ {e.idx[j] : j \in 1..Len(e.idx)} = {i \in PV[m + 1] : U[i].f = e.f}
 
 (* ---- reload mode: the data of generation g as far as the probes see it *)
 Even(g) == g % 2 = 0
